@@ -20,6 +20,7 @@
    complement, shown non-empty by C10_greedy_initial_refuted, and confined to dump 0 by C10_later_dumps_always. *)
 From Coq Require Import ZArith List Bool.
 From KV Require Import Base.Sx Gen.Generated Model.SensorToCat Model.SensorToCatSrc Model.SensorToCatPath
+  Model.SensorToCatTables Proofs.SensorToCatTablesP
   Proofs.SensorToCatP Proofs.SensorToCatInitP Proofs.SensorToCatLawsP Proofs.SensorToCatSrcP Proofs.SensorToCatTopP
   Proofs.SensorToCatPathP.
 Import ListNotations.
@@ -195,6 +196,17 @@ Theorem C10_categorical_decision : forall (p : option bool) (is_float : bool),
   decide_categorical_src p is_float = match p with Some b => b | None => negb is_float end.
 Proof. exact decide_categorical_eq. Qed.
 Print Assumptions C10_categorical_decision.
+
+(* ================= the sensor property tables of the formats (regenerated from dataset.py, h5datav1/2/3.py,
+   visdatav4.py) =================
+   sensor_to_categorical compares `initial_value` and `greedy_values` with TRANSFORMED values (and inserts the initial
+   value among them), so every table entry must give them in the range of its transform; an entry that does not
+   (finding F110, repaired: the noise-diode sensors had the raw values '0' / 0.0 for a transform yielding booleans)
+   makes numpy promote the transformed array and defeats greedy membership. *)
+Theorem C10_tables_transformed : Forall (fun t => offending t = []) c10_all_tables.
+Proof. exact tables_transformed. Qed.
+Print Assumptions C10_tables_transformed.
+Definition C10_example_tables := offending_example.
 
 (* ================= non-vacuity: hypotheses satisfiable, statements discriminate (all by vm_compute) =================
    one Example per theorem lives next to its lemma (Proofs/SensorToCatTopP.v and Proofs/SensorToCatPathP.v, names ex_...) *)
